@@ -21,6 +21,7 @@ import signal
 import time
 
 from harness.lib import cfg, common, lr1dump
+from harness.translate import lr1_examples
 
 PROP = "C08"
 F10_KEY = "error-position-with-unproductive-nonterminal"
@@ -457,6 +458,7 @@ def run(tier):
     chk.cov["rule"] = ("one evaluation = one grammar through the real Grammar(...).parser(); non-trivial = "
                        "distinct grammar text that either reports conflicts or is conflict-free and then "
                        "validated + exhaustively compared on all strings up to the length bound")
+    lr1_examples.regenerate()      # tie T: example tables from the real lr1.py
     model_ok = common.proof_gate(chk, search)
     stats = new_stats()
     pinned(chk)
